@@ -112,12 +112,28 @@ def check_cgr(ctx, r, p, bt, at, src, reagents=()):
     ctx.evaluations += 1
     try:
         rx = ReactionContainer([r], [p], list(reagents))
+        before = [T.mol_record(x) for x in rx.molecules()]
         cgr = rx.compose()
         cgr2 = r ^ p if not reagents else None
     except Exception as e:
         ctx.violation('compose-raises/%s' % type(e).__name__, '%s: %r' % (src, e), w)
         return None
     ctx.count('cgr.compared')
+    # composing is an observation: the reaction and its molecules are what they were
+    after = [T.mol_record(x) for x in rx.molecules()]
+    ctx.count('compose.frame-checked')
+    if before != after:
+        i = next(i for i, (a, b) in enumerate(zip(before, after)) if a != b)
+        ctx.violation('compose-changes-the-reaction', '%s: molecule %d of the reaction differs after compose(): %s' % (
+            src, i, T.diff_records(before[i], after[i])[:3]), w)
+        return None
+    try:
+        fresh = ReactionContainer([r.copy()], [p.copy()], [x.copy() for x in reagents])
+        if str(fresh) != str(rx):
+            ctx.violation('compose-changes-the-reaction', '%s: string after compose() %s, of an identical new reaction %s' % (src, rx, fresh), w)
+            return None
+    except Exception:
+        pass
     nodes = set(r._atoms) | set(p._atoms) | {n for m in reagents for n in m._atoms}
     if set(cgr._atoms) != nodes:
         ctx.violation('cgr-atom-set-differs', '%s: %s vs %s' % (src, sorted(set(cgr._atoms) ^ nodes)[:5], len(nodes)), w)
